@@ -221,6 +221,29 @@ Definition codegen_enter : nat -> site nat := guard_enter nesting_depth_limit.
 (* the parser's guard increments first and compares afterwards: same accepted depths *)
 Definition parser_enter : nat -> site nat := guard_enter parser_nesting_limit.
 
+(* the code generator's guard with its per-pass state: `entered` containers so far and whether a limit was hit already.
+   Walk over a tree of containers as emit_token does it: a refused container is not entered, and after the first refusal
+   nothing is entered any more for the rest of the pass. *)
+Inductive tree := Node (children : list tree).
+Record gstate := mkG { g_entered : Z; g_exhausted : bool; g_max_depth : nat; g_reported : nat }.
+Definition over_depth (d : nat) : bool := match nesting_depth_limit with Some m => Nat.leb m d | None => false end.
+Definition over_budget (n : Z) : bool := match container_budget with Some b => b <=? n | None => false end.
+Fixpoint walk (fuel : nat) (d : nat) (t : tree) (st : gstate) : gstate :=
+  match fuel with
+  | O => st
+  | S f =>
+      match t with
+      | Node cs =>
+          if g_exhausted st && (match container_budget with Some _ => true | None => false end) then st      (* `if self.nesting_exhausted { return Ok(()) }` *)
+          else if over_depth d || over_budget (g_entered st) then
+            mkG (g_entered st) true (g_max_depth st) (S (g_reported st))                                       (* the diagnostic *)
+          else
+            fold_left (fun st' c => walk f (S d) c st') cs
+                      (mkG (g_entered st + 1) (g_exhausted st) (Nat.max (g_max_depth st) (S d)) (g_reported st))
+      end
+  end.
+Definition walk_pass (fuel : nat) (t : tree) : gstate := walk fuel 0 t (mkG 0 false 0 0).
+
 (* how often the innermost text of n nested parentheses / argument lists is parsed when the parse fails (worst case):
    every level that tries the same text twice doubles it *)
 Fixpoint parse_attempts (retries_per_level : nat) (n : nat) : nat :=
